@@ -125,7 +125,7 @@ pub fn record_c11(rng: &mut Rng, count: u64, out: &mut Out) {
           }
           _ => (0, 0, -1, 0),
         };
-        out.emit(json!({"ev": "ring_hash", "n": nside, "f": f.json(), "p": if r.is_none() || r2.is_none() { 1 } else { 0 },
+        out.emit(json!({"ev": "ring_hash", "n": nside, "f": f.json(), "fk": f.kind(), "p": if r.is_none() || r2.is_none() { 1 } else { 0 },
                         "r": r.map_or(json!([]), |h| big_digits(h.min(u64::MAX >> 1))), "same": same, "dx": dxm, "dy": dym, "back": back,
                         "cls": class, "in": pos_str(lon, lat)}));
       }
